@@ -18,6 +18,16 @@ CHECKS = {
    text="Exploration. Histories of unite/find/classes/clone over up to 3 live instances are executed against Partition<u8>, Partition<String>, Partition<(i32,i32)> and IntPartition (sparse indices up to 1000+) with a naive relabelling model per instance. After every step (on a clone, so the original's parent chains stay uncompressed, or directly) or only at the end, every element's representative is checked to lie in its model class, to be shared by the whole class, and to be unchanged since its last observation unless a union touched the class; classes() must equal the model's classes restricted to the query in first-occurrence order. All histories up to length 4 (5 thorough) over a 36-operation alphabet are enumerated; random histories have up to 60 (200) steps over up to 40 elements.",
    note="Trusted: the relabelling model (20 lines). A unite call on two members of one class is conservatively treated as a union involving that class. classes() is only queried with duplicate-free lists.",
    design="§4 C20"),
+ "C14": dict(
+   technique="property-based testing: exhaustive tiny relation matrices + proptest-generated structured matrices realised as shuffled relator words, oracle = Smith normal form over BigInt (two formulations) plus metamorphic presentation rewrites",
+   text="Exploration. abelian_invariants is compared with the invariant factors computed by an independent BigInt Smith-normal-form elimination, which is itself cross-checked against determinantal divisors (gcd of all k x k minors) on every case up to 5x5. Cases: all relation matrices of shapes 1x1..3x3/2x4/4x2 with small entries (about 2.6 M, exhaustive), proptest-generated matrices up to 5x5 (iid, planted invariant factors scrambled by unimodular row/column operations, rank-deficient) realised as relator words with shuffled letters, and sparse presentations with up to 40 generators. Every case also carries a recipe for an equivalent presentation (reorder, invert, rotate, conjugate relators; rename/invert generators; append products of relators; free reduction) whose invariants must be identical.",
+   note="Trusted: the two SNF oracles (they must agree on every small case in the same run). Relators only mention generators 1..n (caller precondition). isize overflow panics would be discards (none occur at these sizes).",
+   design="§4 C14"),
+ "C18": dict(
+   technique="property-based testing: exhaustive small matrices/residues + proptest-generated structured matrices over all exact backends, differential against own Gaussian elimination over Q and Z/p, Bareiss determinant and exact rational solving",
+   text="Exploration. rank, determinant, null_space, null_space_matrix, solve and inverse of VecMatrix<i64>, VecMatrix<BigRational>, VecMatrix<Z/p> (p in {2, 3, 61, 9999991, 3037000493}) and of the const-generic Matrix twin (14 shapes, reached through the cfg-gated verif_* wrappers) are compared with an independent elimination over the matching field: exact rank, exact determinant value, null space of exactly cols-rank independent annihilated columns, solve sound always and complete over fields (and for unimodular integer matrices), inverse exact or None iff singular, no panic for any shape 1x1..6x6. Matrices: all 1x2..3x2 with entries in -2..2 (exhaustive, every backend), and proptest-generated ones (three magnitude bands up to 1e9, planted dependencies, unimodular products, entries congruent to small numbers modulo the prime incl. exact negative multiples) with consistent and random right-hand sides. Residue classes: all n in [-3P,3P] for small P and random i64 incl. negative multiples for all P, every operator form against i128 arithmetic. The p-adic solver is compared with the exact rational solution on square systems up to 6x6; the periodic-graph client is checked by substituting its positions into the barycentric equations.",
+   note="Trusted: the harness's field elimination (Q via BigRational, Z/p via i128) and Bareiss determinant. i64 overflow panics are discards (the harness builds /repo with overflow checks on, as the repository's own debug-profile tests do). f64 is out of scope. Hook: verif_* wrappers on Matrix (cfg odf_rust_dsymbols_verif).",
+   design="§4 C18"),
 }
 
 NOT_YET = "check not built yet in this session (work in progress; see DESIGN.md §4 for its design)"
